@@ -68,11 +68,13 @@ C04_OrderEscrowExact(s) == BalOf(s, "m_order") = SumSeq(Undeposited(s), LAMBDA o
 WorkerAccrued(s) == MuAdd(MuSumSeq(s.workers, LAMBDA w : w.rew), MuSumSeq(s.workers, LAMBDA w : w.income * (s.h - w.last)))
 FutureIncome(s) ==
     MuAdd( MuSumSeq(CompletedShards(s), LAMBDA sh : sh.size * (ShardEnd(sh) - s.h)),
-    MuAdd( MuSumSeq(s.shards, LAMBDA sh : IF sh.status \in {SCompleted} THEN SumSeq(sh.renew, LAMBDA r : sh.size * r.dur) ELSE 0),
-           MuSumSeq(SelectSeq(s.orders, LAMBDA o : o.status = OCompleted /\ o.op # 3),
-                    LAMBDA o : SumSeq(o.shards, LAMBDA id :
+    \* (every single product stays below 2^31; their sums are formed as [q, r] pairs)
+    MuAdd( FoldLeft(LAMBDA acc, sh : IF sh.status = SCompleted THEN MuAdd(acc, MuSumSeq(sh.renew, LAMBDA r : sh.size * r.dur)) ELSE acc,
+                    [q |-> 0, r |-> 0], s.shards),
+           FoldLeft(LAMBDA acc, o : MuAdd(acc, MuSumSeq(o.shards, LAMBDA id :
                         IF HasShard(s, id) /\ ShardOf(s, id).status = SWaiting /\ ShardOf(s, id).order = o.id
-                        THEN ShardOf(s, id).size * o.dur ELSE 0)) ))
+                        THEN ShardOf(s, id).size * o.dur ELSE 0)),
+                    [q |-> 0, r |-> 0], SelectSeq(s.orders, LAMBDA o : o.status = OCompleted /\ o.op # 3)) ))
 MarketOwes(s) == MuAdd(WorkerAccrued(s), FutureIncome(s))
 C06_MarketEscrow(s) == MuLeq(MarketOwes(s), [q |-> BalOf(s, "m_market"), r |-> 0])
 \* conservation: whatever the market holds beyond what it owes is rounding dust only
@@ -343,9 +345,12 @@ C12_MigrationUntouched(x) ==
                                              /\ HasOrder(x.post, m.order) /\ InSeq(x.post.shards[k].id, OrderOf(x.post, m.order).shards))
         => HasShard(x.post, m.id)
 \* bounded liveness: nothing handed over stays unresolved beyond its last possible examination
-C12_ResolvedByBound(s) ==
+\* (counted from the height at which the order was handed to providers - ghost `handed`: an order submitted by the owner's
+\* own account waits, un-timed, until its gateway declares itself Ready)
+HandedAt(g, o) == IF Has(g.handed, "id", o.id) THEN Get(g.handed, "id", o.id).h ELSE o.created
+C12_ResolvedByBound(s, g) ==
     \A i \in 1..Len(s.orders) : LET o == s.orders[i] IN
-        Unfinished(s, o) => s.h <= o.created + Max2(o.dur, 12 * o.timeout) + 1
+        Unfinished(s, o) => s.h <= HandedAt(g, o) + Max2(o.dur, 12 * o.timeout) + 1
 
 \* C15: newly assigned providers are distinct, not already involved, and eligible (tx steps)
 Eligible(s, a, size) ==
